@@ -13,7 +13,7 @@ func init() {
 		Explanation: "Decided: the backup is cut from the transaction's OWN snapshot meta (never db.meta()); both meta pages written carry a checksum computed after their last change, page 0 keeps the snapshot txid and page 1 gets txid-1 (so page 0 wins); " +
 			"the data range is [2*pageSize, tx.Size()) and the byte count returned is the sum of what was written — on success exactly tx.Size(), on every error exit the running count (WriteTo evaluated symbolically for the success path and each failing write); CopyFile closes the destination on both paths and returns the close error on success. " +
 			"While the copy runs, the snapshot's pages can only be overwritten if they enter the allocator's free set: the free-set entry chain of C06.R3 is re-evaluated here (R5). " +
-			"NOT decided: that the result opens and passes Check; the copy loop reading the file concurrently with commits (dynamic).",
+			"NOT decided: that the result opens and passes Check; the copy loop reading the file concurrently with commits (dynamic). Round 3: a backup never closes the database's own file handle.",
 		Run: func(c *Ctx) {
 			ruleDataFileClosedOnlyByClose(c, "C14.R8") // "other transactions keep committing during the copy": a backup never closes the database's own handle
 			c14R1(c, "C14.R1")
